@@ -30,10 +30,8 @@ Definition hash_site_status : list (hsite * hstatus) := [
       OrderFree "false positive of the syntactic taint: `self.types` is the ModuleTypes field of Module, `.groups` is a Vec<RecGroup> (insertion order = id order); the rec groups are emitted in Vec order");
   (mkHS "src/ir/module/mod.rs" "Module::encode_internal" "types" "iter" 1,
       OrderFree "false positive of the syntactic taint: `types` is the Vec<TypeID> of one RecGroup bound by the for pattern; each id is *looked up* in the HashMap (`self.types.types.get(ty_id)`)");
-  (mkHS "src/ir/module/mod.rs" "Module::resolve_special_instrumentation" "resolve_on_else_or_end" "iter" 2,
-      OrderFree "the map has at most the one key InstrumentationMode::Before (only plan_resolution_block_exit inserts, with that key): DetermProofs.roe_single_key");
-  (mkHS "src/ir/module/mod.rs" "Module::resolve_special_instrumentation" "to_resolve" "iter" 1,
-      OrderFree "inner map of resolve_on_end: keys Before / After write to different lists of the instruction (before / after); any visiting order gives the same flags: DetermProofs.ron_modes_commute, ron_entries_permutation (the flag field current_mode, which does depend on the order, is not read by the encoder: mod.rs:1597 binds it to _current_mode)");
+  (mkHS "src/ir/module/mod.rs" "Module::resolve_special_instrumentation" "to_resolve" "iter" 3,
+      OrderFree "the three iterations over an inner map removed by key from resolve_on_else_or_end (at the `else` and at the `end` of the `if` that waits) and from resolve_on_end (at the `end`).  An inner map of resolve_on_else_or_end has at most the one key InstrumentationMode::Before (only plan_resolution_block_exit inserts, with that key): DetermProofs.roe_single_key.  Inner map of resolve_on_end: keys Before / After write to different lists of the instruction (before / after); any visiting order gives the same flags: DetermProofs.ron_modes_commute, ron_entries_permutation (the flag field current_mode, which does depend on the order, is not read by the encoder: mod.rs:1597 binds it to _current_mode)");
   (mkHS "src/ir/module/module_types.rs" "ModuleTypes::iter" "self.types" "values" 1,
       OffPath "public accessor returning the values in hash order; no caller inside src/ (only tests): not on the encode path.  A *caller* that acts on this order is outside the property as checked");
   (mkHS "src/ir/module/module_types.rs" "ModuleTypes::new" "ids" "for" 1,
@@ -44,7 +42,7 @@ Definition hash_site_status : list (hsite * hstatus) := [
 
 (* Every hash-typed declaration, reviewed: the three id maps (func_mapping / global_mapping / memory_mapping, built by
    get_mapping_generic and handed down by reference) and the side-effect map appear in *no* iteration site above --
-   they are only looked up (`mapping.get(..)`, `.entry(..)`) or returned; resolve_on_end is only indexed by key
+   they are only looked up (`mapping.get(..)`, `.entry(..)`) or returned; resolve_on_end and resolve_on_else_or_end are only indexed by key
    (`entry`, `remove`), its inner maps are the `to_resolve` site; `types` / `types_map` of ModuleTypes: see the
    ModuleTypes::new sites; parse_internal's `types` is moved into ModuleTypes::new. *)
 Definition hash_decls_reviewed : list (string * string * string * string) := [
@@ -57,14 +55,14 @@ Definition hash_decls_reviewed : list (string * string * string * string) := [
   ; ("src/ir/module/mod.rs", "fn Module::resolve_special_instrumentation", "func_mapping", "&HashMap<u32,u32>")
   ; ("src/ir/module/mod.rs", "fn Module::resolve_special_instrumentation", "global_mapping", "&HashMap<u32,u32>")
   ; ("src/ir/module/mod.rs", "fn Module::resolve_special_instrumentation", "memory_mapping", "&HashMap<u32,u32>")
-  ; ("src/ir/module/mod.rs", "fn Module::resolve_special_instrumentation", "resolve_on_else_or_end", "HashMap<InstrumentationMode,InstrToInject>")
+  ; ("src/ir/module/mod.rs", "fn Module::resolve_special_instrumentation", "resolve_on_else_or_end", "HashMap<BlockID,HashMap<InstrumentationMode,InstrToInject>,>")
   ; ("src/ir/module/mod.rs", "fn Module::resolve_special_instrumentation", "resolve_on_end", "HashMap<BlockID,HashMap<InstrumentationMode,InstrToInject>,>")
   ; ("src/ir/module/mod.rs", "fn Module::resolve_special_instrumentation", "side_effects", "&mut HashMap<InjectType,Vec<Injection<'a>>>")
   ; ("src/ir/module/mod.rs", "fn add_injection", "side_effects", "&mut HashMap<InjectType,Vec<Injection<'a>>>")
   ; ("src/ir/module/mod.rs", "fn fix_op_id_mapping", "func_mapping", "&HashMap<u32,u32>")
   ; ("src/ir/module/mod.rs", "fn fix_op_id_mapping", "global_mapping", "&HashMap<u32,u32>")
   ; ("src/ir/module/mod.rs", "fn fix_op_id_mapping", "memory_mapping", "&HashMap<u32,u32>")
-  ; ("src/ir/module/mod.rs", "fn plan_resolution_block_exit", "resolve_on_else_or_end", "&mut HashMap<InstrumentationMode,InstrToInject<'c>>")
+  ; ("src/ir/module/mod.rs", "fn plan_resolution_block_exit", "resolve_on_else_or_end", "&mut HashMap<BlockID,HashMap<InstrumentationMode,InstrToInject<'c>>>")
   ; ("src/ir/module/mod.rs", "fn plan_resolution_block_exit", "resolve_on_end", "&mut HashMap<BlockID,HashMap<InstrumentationMode,InstrToInject<'c>>>")
   ; ("src/ir/module/mod.rs", "fn plan_resolution_semantic_after", "resolve_on_end", "&mut HashMap<BlockID,HashMap<InstrumentationMode,InstrToInject<'c>>>")
   ; ("src/ir/module/mod.rs", "fn save_flagged_body_to_resolve", "to_resolve", "&mut HashMap<BlockID,HashMap<InstrumentationMode,InstrToInject<'a>>>")
